@@ -71,6 +71,7 @@ type waiter struct {
 	ctx      *waitCtx
 	target   uint32
 	short    bool
+	parked   bool // held at the entry of its select by the script (w:i:t:P until r:i)
 	returned atomic.Bool
 	err      error
 	started  time.Time
@@ -154,9 +155,23 @@ func (e *env) progress() int64 {
 
 // settle waits until at least `want` progress events (select re-entries or returns) happened since `from`, no
 // registered channel holds an unread head, and the progress counter has been stable for a moment.
+func (e *env) parkedActive() int {
+	n := 0
+	for _, w := range e.ws {
+		if w.parked && !w.returned.Load() {
+			n++
+		}
+	}
+	return n
+}
+
 func (e *env) settle(from int64, want int64) {
+	pk := e.parkedActive()
+	if want -= int64(pk); want < 0 {
+		want = 0
+	}
 	waitUntil(300*time.Millisecond, func() bool { return e.progress() >= from+want })
-	if !guarded(func() { waitUntil(300*time.Millisecond, func() bool { return e.p.VerifUnreadHeads() == 0 }) }) {
+	if !guarded(func() { waitUntil(300*time.Millisecond, func() bool { return e.p.VerifUnreadHeads() <= pk }) }) {
 		e.hung = "settle"
 		return
 	}
@@ -171,8 +186,9 @@ func (e *env) settle(from int64, want int64) {
 	}
 }
 
-func (e *env) startWaiter(i int, target uint32, short bool) {
-	w := &waiter{ctx: newWaitCtx(), target: target, short: short, started: time.Now()}
+func (e *env) startWaiter(i int, target uint32, short bool, park bool) {
+	w := &waiter{ctx: newWaitCtx(), target: target, short: short, parked: park, started: time.Now()}
+	w.ctx.hold.Store(park)
 	e.ws[i] = w
 	e.order = append(e.order, i)
 	to := longTimeout
@@ -193,7 +209,35 @@ func (e *env) startWaiter(i int, target uint32, short bool) {
 		e.hung = fmt.Sprintf("subscribe waiter=%d", i)
 		return
 	}
+	if park {
+		select {
+		case <-w.ctx.parked:
+		case <-time.After(watchdog):
+			if !w.returned.Load() {
+				e.hung = fmt.Sprintf("waiter=%d does not reach its select", i)
+				return
+			}
+		}
+	}
 	e.settle(e.progress(), 0)
+}
+
+// unpark lets a parked waiter enter its select.
+func (e *env) unpark(i int) {
+	w, ok := e.ws[i]
+	if !ok || !w.parked {
+		return
+	}
+	w.parked = false
+	if w.returned.Load() {
+		return
+	}
+	from := e.progress()
+	w.ctx.hold.Store(false)
+	w.ctx.release <- struct{}{}
+	// it either blocks in the select (no progress event) or receives a head and re-enters / returns
+	waitUntil(2*time.Millisecond, func() bool { return e.progress() > from })
+	e.settle(from, 0)
 }
 
 func (e *env) publish(c int, q uint32) {
@@ -238,7 +282,7 @@ func (e *env) tick(mask int, rtts []int64) {
 // leave: cancel (or wait for the short timer of) waiter i and wait for its return.
 func (e *env) leave(i int, cancel bool) {
 	w, ok := e.ws[i]
-	if !ok || w.returned.Load() {
+	if !ok || w.returned.Load() || w.parked {
 		return
 	}
 	if cancel {
@@ -399,7 +443,9 @@ func runScript(s script) (obs []string, hung string, anomaly bool) {
 		f := strings.Split(st, ":")
 		switch f[0] {
 		case "w":
-			e.startWaiter(atoi(f[1]), u32(f[2]), f[3] == "S")
+			e.startWaiter(atoi(f[1]), u32(f[2]), f[3] == "S", f[3] == "P")
+		case "r":
+			e.unpark(atoi(f[1]))
 		case "u":
 			e.publish(atoi(f[1]), u32(f[2]))
 		case "t":
@@ -421,7 +467,14 @@ func runScript(s script) (obs []string, hung string, anomaly bool) {
 			return obs, fmt.Sprintf("step=%s: %s; goroutines: %s", st, e.hung, poolGoroutines()), anomaly
 		}
 	}
-	// epilogue: everybody still waiting is cancelled; the wait list must drain and the pool must stay responsive
+	// epilogue: parked waiters are released, then everybody still waiting is cancelled; the wait list must drain
+	// and the pool must stay responsive
+	for _, i := range e.order {
+		e.unpark(i)
+		if e.hung != "" {
+			return obs, fmt.Sprintf("epilogue: %s; goroutines: %s", e.hung, poolGoroutines()), anomaly
+		}
+	}
 	for _, i := range e.order {
 		e.leave(i, true)
 		if e.hung != "" {
@@ -467,14 +520,17 @@ func expectScript(s script) []string {
 	state := make([]byte, s.nw)
 	target := make([]uint32, s.nw)
 	short := make([]bool, s.nw)
+	parked := make([]bool, s.nw)  // held before its select: a decision already reached shows only after release
+	reached := make([]bool, s.nw) // parked and its target has been reported
+	registered := make([]bool, s.nw)
 	for i := range state {
 		state[i] = '-'
 	}
 	var out []string
 	snap := func() {
 		wl := 0
-		for _, c := range state {
-			if c == 'w' {
+		for i, c := range state {
+			if c == 'w' && registered[i] {
 				wl++
 			}
 		}
@@ -485,13 +541,24 @@ func expectScript(s script) []string {
 		switch f[0] {
 		case "w":
 			i := atoi(f[1])
-			target[i], short[i] = u32(f[2]), f[3] == "S"
+			target[i], short[i], parked[i] = u32(f[2]), f[3] == "S", f[3] == "P"
 			if best < 0 {
 				state[i] = 'p'
 			} else if heads[best] >= target[i] {
-				state[i] = 'o'
+				if parked[i] {
+					state[i], reached[i] = 'w', true
+				} else {
+					state[i] = 'o'
+				}
 			} else {
-				state[i] = 'w'
+				state[i], registered[i] = 'w', true
+			}
+		case "r":
+			if i := atoi(f[1]); i < len(state) && parked[i] {
+				parked[i] = false
+				if state[i] == 'w' && reached[i] {
+					state[i] = 'o'
+				}
 			}
 		case "u":
 			c, q := atoi(f[1]), u32(f[2])
@@ -500,7 +567,11 @@ func expectScript(s script) []string {
 				if c == best {
 					for i := range state {
 						if state[i] == 'w' && q >= target[i] {
-							state[i] = 'o'
+							if parked[i] {
+								reached[i] = true
+							} else {
+								state[i] = 'o'
+							}
 						}
 					}
 				}
@@ -518,18 +589,20 @@ func expectScript(s script) []string {
 			}
 			best = ruleSelect(s.strategy, ms, best)
 		case "c":
-			if i := atoi(f[1]); i < len(state) && state[i] == 'w' {
+			if i := atoi(f[1]); i < len(state) && state[i] == 'w' && !parked[i] {
 				state[i] = 'e'
 			}
 		case "x":
-			if i := atoi(f[1]); i < len(state) && state[i] == 'w' && short[i] {
+			if i := atoi(f[1]); i < len(state) && state[i] == 'w' && short[i] && !parked[i] {
 				state[i] = 'e'
 			}
 		}
 		snap()
 	}
 	for i := range state {
-		if state[i] == 'w' {
+		if state[i] == 'w' && parked[i] && reached[i] {
+			state[i] = 'o'
+		} else if state[i] == 'w' {
 			state[i] = 'e'
 		}
 	}
@@ -840,11 +913,11 @@ func goAdvRandom(a []string) string {
 
 // ------------------------------------------------------------------------------------------------ generator
 
-func genWait(g *h.G) {
+func genWait(g *h.G, out func(op string, args ...string)) {
 	strategies := []string{pool.BestPingStrategy, pool.FirstWorkingConnection}
 	emit := func(args ...string) {
-		g.Emit("wait.script", args...)
-		g.Emit("go.wait.script", args...)
+		out("wait.script", args...)
+		out("go.wait.script", args...)
 		g.NonTrivial("script " + strings.Join(args, " "))
 	}
 	// fixed scenarios: short-circuit, plain success, sub-target heads, cancellation, timeout, switch of best
@@ -856,7 +929,12 @@ func genWait(g *h.G) {
 	emit("first-working", "5/5", "0", "w:0:7:L", "u:1:7", "t:2:1.1", "u:1:8", "u:0:9")
 	emit("best-ping", "5/9", "0", "w:0:7:L", "w:1:6:L", "t:3:2.1", "u:1:10")
 	emit("best-ping", "0", "-1", "w:0:1:L")
-	n := g.Scale(120, 2500)
+	// a waiter held before its select while heads arrive: the newest head must be the one it finds
+	emit("best-ping", "5", "0", "w:0:8:P", "u:0:7", "u:0:8", "r:0")
+	emit("best-ping", "5", "0", "w:0:8:P", "u:0:8", "u:0:9", "u:0:10", "r:0")
+	emit("best-ping", "5", "0", "w:0:3:P", "u:0:6", "r:0")
+	emit("first-working", "5/5", "0", "w:0:7:P", "w:1:7:L", "u:0:6", "u:0:7", "c:0", "r:0")
+	n := g.Scale(400, 4000)
 	for k := 0; k < n; k++ {
 		nc := 1 + g.Rng.Intn(3)
 		heads := make([]uint32, nc)
@@ -869,12 +947,20 @@ func genWait(g *h.G) {
 		nsteps := 3 + g.Rng.Intn(10)
 		nw, shorts := 0, 0
 		pendingShort := -1
+		var parkedW []int
 		kinds := map[string]bool{}
 		for sidx := 0; sidx < nsteps; sidx++ {
 			if pendingShort >= 0 && g.Rng.Intn(2) == 0 {
 				args = append(args, fmt.Sprintf("x:%d", pendingShort))
 				pendingShort = -1
 				kinds["x"] = true
+				continue
+			}
+			if len(parkedW) > 0 && g.Rng.Intn(4) == 0 {
+				k := g.Rng.Intn(len(parkedW))
+				args = append(args, fmt.Sprintf("r:%d", parkedW[k]))
+				parkedW = append(parkedW[:k], parkedW[k+1:]...)
+				kinds["r"] = true
 				continue
 			}
 			switch r := g.Rng.Intn(100); {
@@ -889,6 +975,9 @@ func genWait(g *h.G) {
 				if shorts < 2 && pendingShort < 0 && g.Rng.Intn(5) == 0 {
 					kind, pendingShort = "S", nw
 					shorts++
+				} else if g.Rng.Intn(4) == 0 {
+					kind = "P"
+					parkedW = append(parkedW, nw)
 				}
 				tg := int(mx) + g.Rng.Intn(5) - 1
 				if tg < 0 {
@@ -929,12 +1018,12 @@ func genWait(g *h.G) {
 	}
 	// adversarial schedules
 	for k := 0; k < g.Scale(6, 40); k++ {
-		g.Emit("go.wait.adv.cancel", "24")
+		out("go.wait.adv.cancel", "24")
 	}
 	for k := 0; k < g.Scale(3, 12); k++ {
-		g.Emit("go.wait.adv.publish", fmt.Sprint(k%4))
+		out("go.wait.adv.publish", fmt.Sprint(k%4))
 	}
-	for k := 0; k < g.Scale(150, 3000); k++ {
-		g.Emit("go.wait.adv.random", fmt.Sprint(g.Rng.Intn(1<<30)), fmt.Sprint(20+g.Rng.Intn(80)))
+	for k := 0; k < g.Scale(400, 6000); k++ {
+		out("go.wait.adv.random", fmt.Sprint(g.Rng.Intn(1<<30)), fmt.Sprint(20+g.Rng.Intn(80)))
 	}
 }
